@@ -57,6 +57,19 @@ CLAIMED["C14"] = dict(
     design="6/C14",
 )
 
+CLAIMED["C05"] = dict(
+    text="Lean theorems (Props/C05.lean): for all 64 policy subsets, every validation-mode override and every list of errors of a "
+         "line (any length), the modelled handler leaves exactly the outcome the flags prescribe (raise/collect/stop/fail/print "
+         "independent; a raise abandons the rest); the override wins over the policy for raise/print/stop/fail; the validation-mode "
+         "token reader is correct on the whole table of documented settings (3^5 combinations, kernel-evaluated). Tie: suite `errors` "
+         "drives the real ErrorHandler/ValidationMode on every policy x setting (unit) and real csvpaths with seven kinds of "
+         "error-provoking components at chosen lines and positions (run), comparing with the model and with the flags' meaning.",
+    note="Which component raises what (Args validation, Python exceptions inside functions) is exercised on the real code, not modelled; "
+         "'quiet' only changes logging. With validation-mode `match` the property makes no positive claim and the oracle makes none.",
+    technique="Lean 4 proof (induction over the error list; decide +kernel over the token table) + correspondence",
+    design="6/C05",
+)
+
 NOT_YET = "check not built yet in this revision (planned: see DESIGN.md section 6); not claimed until its theorem and correspondence suite exist"
 
 
